@@ -48,9 +48,9 @@ type c04World struct {
 	log  []string
 }
 
-func newC04World(t *testing.T, transactional bool) *c04World {
+func newC04World(t *testing.T, transactional bool, haOpt ...bool) *c04World {
 	hub := newRecHub()
-	tc := mustBoot(t, coreOpts{transactional: transactional, cacheOff: true,
+	tc := mustBoot(t, coreOpts{transactional: transactional, cacheOff: true, ha: len(haOpt) > 0 && haOpt[0],
 		logical: map[string]logical.Factory{"recbe": hub.factory("recbe", logical.TypeLogical)}})
 	tc.mount("rb", "recbe", nil)
 	tc.writePolicy("c04", c04Policy)
@@ -298,10 +298,11 @@ func (w *c04World) fork() *c04World {
 // ---------------------------------------------------------------- (a) sequential histories
 
 func TestVerif_C04_Histories(t *testing.T) {
-	rec := verifx.NewRecorder("C04", "histories", "rapid state machine on a fresh in-memory core per case: create child / orphan / batch child, write cubbyhole, obtain leased secret, revoke (by id, self, by accessor, revoke-orphan, through the token's lease), restart on the same storage; after every action every token of the model is probed (lookup-self, request to a recording backend, accessor lookup, cubbyhole key in physical storage, lease entries); non-trivial = a successful revocation of a token with >=1 descendant and >=1 lease or cubbyhole entry in the subtree")
+	rec := verifx.NewRecorder("C04", "histories", "rapid state machine on a fresh in-memory core per case: create child / orphan / batch child, write cubbyhole, obtain leased secret, revoke (by id, self, by accessor, revoke-orphan, through the token's lease), restart on the same storage, step-down and re-acquisition of leadership on an HA-enabled node; after every action every token of the model is probed (lookup-self, request to a recording backend, accessor lookup, cubbyhole key in physical storage, lease entries); non-trivial = a successful revocation of a token with >=1 descendant and >=1 lease or cubbyhole entry in the subtree")
 	defer rec.Flush()
 	rapid.Check(t, func(rt *rapid.T) {
-		w := newC04World(t, rapid.Bool().Draw(rt, "transactionalStorage"))
+		ha := fairIndex(rt, "haEnabled", 4) == 0
+		w := newC04World(t, rapid.Bool().Draw(rt, "transactionalStorage"), ha)
 		defer func() { w.tc.shutdown() }()
 		nontrivial := false
 		restarts := 0
@@ -420,13 +421,28 @@ func TestVerif_C04_Histories(t *testing.T) {
 				w.restart()
 				w.logf("restart")
 			},
+			// leadership change: the node steps down and becomes active again (token store and expiration manager rebuilt)
+			"step-down": func(rt *rapid.T) {
+				if !ha {
+					rt.Skip("not an HA node")
+				}
+				if restarts >= 3 {
+					rt.Skip("enough restarts")
+				}
+				restarts++
+				if err := w.tc.stepDown(); err != nil {
+					fail("not-active-after-step-down", err.Error())
+					return
+				}
+				w.logf("step-down")
+			},
 			"": func(rt *rapid.T) {
 				if sig, msg := w.checkAll(); sig != "" {
 					fail(sig+":sequential", msg)
 				}
 			},
 		})
-		rec.Case(fmt.Sprintf("restarts=%d", restarts), nontrivial, verifx.Digest(w.log), func() any { return map[string]any{"history": w.log, "tree": w.shape()} })
+		rec.Case(fmt.Sprintf("restarts=%d ha=%v", restarts, ha), nontrivial, verifx.Digest(w.log), func() any { return map[string]any{"history": w.log, "tree": w.shape()} })
 	})
 }
 
